@@ -93,6 +93,8 @@ Lemma ext_set_data e i v : ext e (set_data e i v). Proof. apply ext_tmod; intros
 Lemma ext_set_exposed e i v : ext e (set_exposed e i v). Proof. apply ext_tmod; intros y; repeat split; reflexivity. Qed.
 Lemma ext_upsert e i : ext e (upsert e i).
 Proof. unfold upsert. eapply ext_trans; [apply ext_with_rows | apply ext_with_prow]. Qed.
+Lemma ext_persist e : ext e (persist e).
+Proof. unfold persist. eapply ext_trans; [apply ext_with_rows | apply ext_with_prow]. Qed.
 
 (* ---- sched: one more task, in state none with no error ---- *)
 Lemma tk_sched e n p t : tk (sched e n p) t = if Nat.eqb t (length (tasks e)) then new_task n (Some p) else tk e t.
